@@ -1178,3 +1178,16 @@ pub fn run_c08(o: &mut Out, tier: &str, seed: u64) {
 }
 
 pub fn run(o: &mut Out, tier: &str, seed: u64) { run_c07(o, tier, seed) }
+
+/// The receiver-side clause of C10 ("one-time keys built from the derivation are recognised by the receiver") goes through the SCANNER:
+/// a reduced run of the C07 scenario families under C10's own check (main key and additional keys for the same position, additional-key
+/// lists shorter / longer than the outputs, extras with an unparsable sub-field behind the transaction key, mixed tagged / untagged outputs)
+pub fn run_recognition(o: &mut Out, seed: u64, thorough: bool) {
+    let mut rng = Rng::new(seed ^ 0xc10_c07);
+    for _ in 0..(if thorough { 60 } else { 10 }) { let l = gen_scenario(&mut rng, 0, None, None, true); run_scenario(o, &mut rng, l, "c10.scan.small"); }
+    family_both_keys(o, &mut rng, thorough);
+    family_addkey_count(o, &mut rng, thorough);
+    family_mixed_tags(o, &mut rng, thorough);
+    family_primary_via_additional(o, &mut rng, thorough);
+    o.stat("c10.scan.recognition");
+}
